@@ -18,11 +18,13 @@ func checkC12(c *Ctx) {
 	c.Rule("C12.R2", "depth comparator: in every backend the queue is treated as full exactly when active + n - max_depth >= 1 (n = 1 for single enqueue, the batch size for batches), with active = queued + leased")
 	c.Rule("C12.R3", "ingress refusals are typed and effect-free: body read through MaxBytesReader with the route limit (413), header-size test (413), rate-limit hook (429), enqueue error (503); no refusing edge reaches an enqueue and the header test dominates it")
 	c.Rule("C12.R4", "token bucket shape: refill is clamped to burst before the admit test, admit needs tokens >= 1 and takes one, elapsed time is consumed (last = now) on every path on which it is credited or discarded, all under the limiter mutex; a route limiter overrides the global one")
+	c.Rule("C12.R5", "an eviction shortfall is detected: a one-at-a-time evictor is called in a depth-driven loop (or once for one message) with its outcome tested; an evictor that takes the number wanted has its result compared with that number before anything is stored")
 	checkFailedOpEffectFree(c, "C12.R1", isEnqueueOp)
 	checkEvictInsertOneTx(c, "C12.R1")
 	checkDepthComparator(c, "C12.R2")
 	checkIngressRefusals(c, "C12.R3")
 	checkTokenBucket(c, "C12.R4")
+	checkEvictionShortfall(c, "C12.R5")
 }
 
 // checkEvictInsertOneTx: SQL drop-oldest statements execute inside the same transaction function as the INSERT.
